@@ -5,10 +5,10 @@ from harness import runner, tlc, isagen
 
 INV = ['SizeIsSum', 'StepsAreWholeBytes', 'Emit']
 ADDR = 16
-PAT = {'any': (1, ['anyop']), 'num': (1, ['num8']), 'reg': (1, ['regs']), 'ind': (1, ['ind']), 'num2': (2, ['num8', 'num8'])}
-INVTXT = {'sum': 'mac 3+2', 'bare': 'mac', 'lit': 'mac 5', 'fwd': 'mac fwd', 'back': 'mac back', 'reg': 'mac r1', 'ind': 'mac [r1+5]', 'lit2': 'mac 5, 9'}
-ARGTXT = {'sum': ['3+2'], 'bare': [], 'lit': ['5'], 'fwd': ['fwd'], 'back': ['back'], 'lit2': ['5', '9'], 'ind': ['5'], 'reg': [None]}
-OPTXT = {'sum': ['3+2'], 'bare': [], 'lit': ['5'], 'fwd': ['fwd'], 'back': ['back'], 'lit2': ['5', '9'], 'ind': ['[r1+5]'], 'reg': ['r1']}
+PAT = {'regpp': (1, ['regspp']), 'any': (1, ['anyop']), 'num': (1, ['num8']), 'reg': (1, ['regs']), 'ind': (1, ['ind']), 'num2': (2, ['num8', 'num8'])}
+INVTXT = {'regpp': 'mac r1++', 'sum': 'mac 3+2', 'bare': 'mac', 'lit': 'mac 5', 'fwd': 'mac fwd', 'back': 'mac back', 'reg': 'mac r1', 'ind': 'mac [r1+5]', 'lit2': 'mac 5, 9'}
+ARGTXT = {'regpp': [None], 'sum': ['3+2'], 'bare': [], 'lit': ['5'], 'fwd': ['fwd'], 'back': ['back'], 'lit2': ['5', '9'], 'ind': ['5'], 'reg': [None]}
+OPTXT = {'regpp': ['r1++'], 'sum': ['3+2'], 'bare': [], 'lit': ['5'], 'fwd': ['fwd'], 'back': ['back'], 'lit2': ['5', '9'], 'ind': ['[r1+5]'], 'reg': ['r1']}
 
 
 def step_text(ins, ph, n):
@@ -32,12 +32,17 @@ def macro_isa(m):
         'rel8e': {'operand_values': {'rle': {'type': 'relative_address', 'argument': arg(8), 'offset_from_instruction_end': True}}},
         'regs': {'operand_values': {'rr1': {'type': 'register', 'register': 'r1', 'bytecode': {'value': 1, 'size': 4}},
                                     'rr2': {'type': 'register', 'register': 'r2', 'bytecode': {'value': 2, 'size': 4}}}},
+        'regspp': {'operand_values': {'rp1': {'type': 'register', 'register': 'r1', 'bytecode': {'value': 3, 'size': 4},
+                                              'decorator': {'type': 'plus_plus', 'is_prefix': False}}}},
+        'regsany': {'operand_values': {'rq1': {'type': 'register', 'register': 'r1', 'bytecode': {'value': 1, 'size': 4}},
+                                       'rq2': {'type': 'register', 'register': 'r1', 'bytecode': {'value': 3, 'size': 4},
+                                               'decorator': {'type': 'plus_plus', 'is_prefix': False}}}},
         'ind': {'operand_values': {'ir1': {'type': 'indirect_register', 'register': 'r1', 'bytecode': {'value': 1, 'size': 4},
                                            'offset': arg(4)}}},
     }
     one = lambda v, s, st: {'bytecode': {'value': v, 'size': s}, 'operands': {'count': 1, 'operand_sets': {'list': [st]}}}
     instructions = {'i4': {'bytecode': {'value': 1, 'size': 4}}, 'ld': one(168, 8, 'num8'), 'w12': one(224, 8, 'num4'),
-                    'br': one(176, 8, 'rel8'), 'bre': one(177, 8, 'rel8e'), 'mv': one(12, 4, 'regs'), 'ldx': one(208, 8, 'ind')}
+                    'br': one(176, 8, 'rel8'), 'bre': one(177, 8, 'rel8e'), 'mv': one(12, 4, 'regs'), 'mvp': one(13, 4, 'regsany'), 'ldx': one(208, 8, 'ind')}
     def variant(pat, steps):
         if pat == 'none':
             return {'instructions': steps}          # a variant without an operands section
@@ -88,6 +93,13 @@ def evaluate(e):
         want = bytes(e['bytes']) + bytes([(ADDR + e['size']) & 0xFF])
         if obs['image'] != want:
             return {'m': f'macro bytes + following label: {obs["image"].hex()}, expanded sequence prescribes {want.hex()}', 'case': case}
+        # an image window that begins inside the macro shows the macro's remaining bytes (the macro is not one indivisible block)
+        for k in ([1 + (len(str(m)) % (e['size'] - 1))] if e['size'] >= 2 and len(str(m)) % 3 == 0 else []):
+            case3 = dict(case, start=ADDR + k, fill=255)
+            obs3 = runner.run_case(case3)
+            if obs3['status'] != 'ok' or obs3['image'] != want[k:]:
+                return {'m': f'image window starting {k} byte(s) into the macro: {obs3["image"].hex() if obs3.get("image") is not None else obs3["status"]}, '
+                             f'the expanded sequence prescribes {want[k:].hex()}', 'case': case3}
         # the hand-expanded program must give the same image
         src2 = f'.org {ADDR}\nback:\n' + '\n'.join(filled_lines(e)) + '\nfwd:\n.byte fwd\n'
         case2 = dict(case, files={'main.asm': src2})
@@ -141,10 +153,18 @@ def run(chk):
                       f'  Invocations <- Invs\n  MaxSteps = {ms}\n  MacroAddr = {ADDR}\n' + ''.join(f'INVARIANT {i}\n' for i in INV), workers=16)
     chk.add_tlc(res)
     emits = res.emits
+    if quick and len(emits) > 26000:
+        # quick tier: every accepted definition x invocation, and a seeded sample of the rejected ones
+        rng = random.Random(chk.seed)
+        rej = [e for e in emits if not e['ok']]
+        emits = [e for e in emits if e['ok']] + rng.sample(rej, min(len(rej), 6000))
     if not quick and len(emits) > 60000:
         rng = random.Random(chk.seed)
         emits = [e for e in emits if e['ok']] + rng.sample([e for e in emits if not e['ok']], 30000)
+    import time as _t
+    _t0 = _t.time()
     outs = runner.pmap(evaluate, emits)
+    chk.notes['replay_s'] = round(_t.time() - _t0, 1)
     for e, r in zip(emits, outs):
         chk.traces += 2 if e['ok'] else 1
         if e['ok']:
@@ -156,7 +176,10 @@ def run(chk):
     for e in emits:
         groups.setdefault(str((e['m']['p1'], e['m']['steps'], e['m']['v2'])), []).append(e)
     glist = [g for g in groups.values() if len([e for e in g if e['ok']]) >= 2]
-    for g, r in zip(glist, runner.pmap(evaluate_history, glist)):
+    _t0 = _t.time()
+    hist = runner.pmap(evaluate_history, glist)
+    chk.notes['history_s'] = round(_t.time() - _t0, 1)
+    for g, r in zip(glist, hist):
         chk.traces += 2
         if r is not None:
             chk.violation(f'{r["m"]} | macro {g[0]["m"]}', r['case'], None, r['m'], {'kind': 'macro-history'})
@@ -165,4 +188,4 @@ def run(chk):
     if ok:
         chk.sample({'macro': ok[len(ok) // 2]['m'], 'bytes': ok[len(ok) // 2]['bytes'], 'size': ok[len(ok) // 2]['size']})
     chk.notes['scenarios'] = {'enumerated': len(res.emits), 'replayed': len(emits), 'accepted': len([e for e in emits if e['ok']])}
-    chk.exhaustive = quick or len(emits) == len(res.emits)
+    chk.exhaustive = len(emits) == len(res.emits)
